@@ -224,11 +224,15 @@ pub struct Model {
     pub wall_ms: u64,
     /// epoch (wall ms) of the current history: signatures print clock-derived stream ids relative to it
     pub sig_ms_base: u64,
+    /// set by a command whose effect the reference leaves open in a way that changes later behaviour (claiming a
+    /// pending id whose entry was trimmed away: dropped from the PEL since Redis 7, transferred before); the
+    /// driver then neither judges the reply nor explores beyond that step
+    pub out_of_scope: bool,
 }
 
 impl Model {
     pub fn new() -> Model {
-        Model { dbs: (0..16).map(|_| Db::default()).collect(), now: 0, wall_ms: 0, sig_ms_base: 0 }
+        Model { dbs: (0..16).map(|_| Db::default()).collect(), now: 0, wall_ms: 0, sig_ms_base: 0, out_of_scope: false }
     }
 
     pub fn set_clock(&mut self) {
